@@ -11,27 +11,27 @@ not a comparison with the model's repeat/tile construction.
 namespace Jinns.Holds
 
 /-- `a[..., f]` of a rows × coordinates × facets array (missing entries are `none`). -/
-def facetOf (f : Nat) (a : List (List (List Rat))) : List (List (Option Rat)) :=
+def c14FacetOf (f : Nat) (a : List (List (List Rat))) : List (List (Option Rat)) :=
   a.map fun row => row.map fun c => c[f]?
 
 /-- row `k` of `out` is **not** `a[k / |b|] ++ b[k % |b|]` -/
-def prodBad {β : Type} [BEq β] (a b out : List (List β)) (k : Nat) : Bool :=
+def c14ProdBad {β : Type} [BEq β] (a b out : List (List β)) (k : Nat) : Bool :=
   match out[k]?, a[k / b.length]?, b[k % b.length]? with
   | some r, some x, some y => !(r == x ++ y)
   | _, _, _ => true
 
 /-- row `i` of `out` is **not** `a[i] ++ b[i]` -/
-def pairBad {β : Type} [BEq β] (a b out : List (List β)) (i : Nat) : Bool :=
+def c14PairBad {β : Type} [BEq β] (a b out : List (List β)) (i : Nat) : Bool :=
   match out[i]?, a[i]?, b[i]? with
   | some r, some x, some y => !(r == x ++ y)
   | _, _, _ => true
 
 /-- The generic product statement on rows: `out` has `|a|·|b|` rows and row `k` is
     `a[k / |b|] ++ b[k % |b|]`.  Returns which part fails. -/
-def productRows {β : Type} [BEq β] (a b out : List (List β)) (pre : String) : Option String :=
+def c14ProductRows {β : Type} [BEq β] (a b out : List (List β)) (pre : String) : Option String :=
   if out.length != a.length * b.length then some (pre ++ "row-count-is-not-the-product-of-the-batch-sizes")
   else
-    let bad := (List.range out.length).find? (prodBad a b out)
+    let bad := (List.range out.length).find? (c14ProdBad a b out)
     match bad with
     | none => none
     | some k =>
@@ -42,55 +42,55 @@ def productRows {β : Type} [BEq β] (a b out : List (List β)) (pre : String) :
       | _, _ => some (pre ++ "row-missing")
 
 /-- The pairing statement: same number of rows, row `i` is `a[i] ++ b[i]`. -/
-def pairedRows {β : Type} [BEq β] (a b out : List (List β)) (pre : String) : Option String :=
+def c14PairedRows {β : Type} [BEq β] (a b out : List (List β)) (pre : String) : Option String :=
   if a.length != b.length || out.length != a.length then some (pre ++ "row-count-is-not-the-batch-size")
   else
-    let bad := (List.range out.length).find? (pairBad a b out)
+    let bad := (List.range out.length).find? (c14PairBad a b out)
     match bad with
     | none => none
     | some _ => some (pre ++ "row-i-is-not-(t[i],x[i])")
 
-def firstSome : List (Option String) → Option String
+def c14First : List (Option String) → Option String
   | [] => none
   | some s :: _ => some s
-  | none :: r => firstSome r
+  | none :: r => c14First r
 
 /-- interior part: `cart` ⇒ product of the time column with the spatial batch; else pairing. -/
-def holdsInterior (cart : Bool) (ts : List Rat) (xs tx : List (List Rat)) : Option String :=
+def c14Interior (cart : Bool) (ts : List Rat) (xs tx : List (List Rat)) : Option String :=
   let tcol := ts.map fun t => [t]
-  if cart then productRows tcol xs tx "interior-" else pairedRows tcol xs tx "interior-"
+  if cart then c14ProductRows tcol xs tx "interior-" else c14PairedRows tcol xs tx "interior-"
 
 /-- border part, facet by facet: on facet `f` the batch is the product (pairing) of the same time
     column with the facet's own points `dx[..., f]`; in 1-D the product is always used. -/
-def holdsBorder (cart : Bool) (dim : Nat) (ts : List Rat) (dx tdx : List (List (List Rat))) :
+def c14Border (cart : Bool) (dim : Nat) (ts : List Rat) (dx tdx : List (List (List Rat))) :
     Option String :=
   let nF := 2 * dim
   if !(tdx.all fun row => row.length == 1 + dim && row.all fun c => c.length == nF) then
     some "border-shape-is-not-rows-x-(1+dim)-x-(2dim)"
   else
     let tcol : List (List (Option Rat)) := ts.map fun t => [some t]
-    firstSome <| (List.range nF).map fun f =>
-      if cart || dim == 1 then productRows tcol (facetOf f dx) (facetOf f tdx) s!"border-facet{f}-"
-      else pairedRows tcol (facetOf f dx) (facetOf f tdx) s!"border-facet{f}-"
+    c14First <| (List.range nF).map fun f =>
+      if cart || dim == 1 then c14ProductRows tcol (c14FacetOf f dx) (c14FacetOf f tdx) s!"border-facet{f}-"
+      else c14PairedRows tcol (c14FacetOf f dx) (c14FacetOf f tdx) s!"border-facet{f}-"
 
 /-- C14 on one observed `get_batch`. -/
 def holdsC14 (cart : Bool) (dim : Nat) (ts : List Rat) (xs : List (List Rat))
     (dx : Option (List (List (List Rat)))) (tx : List (List Rat))
     (tdx : Option (List (List (List Rat)))) : Option String :=
   if !(tx.all fun r => r.length == 1 + dim) then some "interior-shape-is-not-rows-x-(1+dim)"
-  else match holdsInterior cart ts xs tx with
+  else match c14Interior cart ts xs tx with
   | some c => some c
   | none =>
     match dx, tdx with
     | none, none => none
-    | some d, some td => holdsBorder cart dim ts d td
+    | some d, some td => c14Border cart dim ts d td
     | _, _ => some "border-batch-presence-differs-from-the-generator's-border-setting"
 
 /-- C14 on one observed call of `make_cartesian_product` on 2-D arrays. -/
-def holdsProduct2 (b1 b2 out : List (List Rat)) : Option String := productRows b1 b2 out "product-"
+def holdsC14Product2 (b1 b2 out : List (List Rat)) : Option String := c14ProductRows b1 b2 out "product-"
 
 /-- … and on 3-D arrays (rows × columns × facets): concatenation is still on axis 1. -/
-def holdsProduct3 (b1 b2 out : List (List (List Rat))) : Option String :=
-  productRows b1 b2 out "product-"
+def holdsC14Product3 (b1 b2 out : List (List (List Rat))) : Option String :=
+  c14ProductRows b1 b2 out "product-"
 
 end Jinns.Holds
